@@ -447,6 +447,9 @@ func (g *gen) step(prop string) []CStep {
 		if r.Chance(0.04) {
 			return []CStep{CStep{Op: "withdraw", N: r.Intn(64)}}
 		}
+		if prop == "C15" && r.Chance(0.03) {
+			return []CStep{CStep{Op: "strategyupdate", A: r.Intn(5), N: r.Intn(5)}}
+		}
 		if prop == "C15" && r.Chance(0.02) {
 			return []CStep{CStep{Op: "rolecycle", A: r.Intn(4), B: r.Intn(4), N: r.Intn(3)}}
 		}
